@@ -73,10 +73,20 @@ LEVEL = {
 }
 
 RULES = {
+    "C08": "case = a finite baseline problem (family x N in {1,2,3,4(,8)} x S in {1,2} x provenance x flavour x weights x f32/f64) with <= k positions (each element of x, y, w, the initial alpha, or a later set_params vector) replaced by one of 14 IEEE special values; every case runs build, queries, set_params, fit, fit_with_statistics and all statistics accessors; non-trivial = the basis matrix at the starting parameters is non-finite (the path the property is about)",
+    "C09": "case = (scenario, phase in {caller history <= d over 3 parameter vectors, fit, fit_with_statistics}, failing model-call index k < n, transient|persistent, model keeps|stores rejected parameters); non-trivial = the injected failure actually fired",
+    "C12": "case = (family/shape with N from M to M+P+3, width, provenance, weights, one of three solver set-ups that make success independent of the data, build profile) plus a failure at every model call of the statistics phase; non-trivial = statistics code entered (successful fit) and either the identities were checked or the under-determined/faulted case was rejected",
+    "C13": "case = (incidence pattern | Z1-Z5, N, weights, noise vector, amplitude, width, provenance[, parallel]); non-trivial = covariance compared entry-wise with the reference AND all reference variances pairwise distinct (ordering observable)",
+    "C14": "case = (family, nu = N-M-P in 1..30 and 100, weights, width, provenance) x every p of the alphabet; non-trivial = fits whose band was compared with the reference table",
     "C15": "every word new(l).s1..sk.build() with l from 6 parameter lists and s_i from the 26-symbol alphabet, k <= L (L=4 quick, 5 thorough), plus every <=k-edit deviation (insert/delete/substitute/swap over a 58-symbol pool; k=1 quick, 2 thorough) of 10 valid templates; each word is executed on the real builder and on the reference specification automaton; a state is a builder call history (the builder accumulates its history, so the state graph is the word tree); every word counts as distinct and non-trivial",
 }
 
 ASSUMPTIONS = {
+    "C08": ["a case that is silent for 4 s is counted as not returning", "values outside the 14-value alphabet are not tried"],
+    "C09": ["failures are injected by a wrapper model; the wrapped zoo models never fail on their own"],
+    "C12": ["shapes up to M,P <= 3"],
+    "C13": ["reference covariance from one-sided Jacobi SVD in f64; comparison skipped when 4096*eps*kappa(H^T H) > 0.25"],
+    "C14": ["reference quantiles from scipy.stats.t (harness/data/tquant.json)", "tolerance 2e-4 reflects the accuracy of the distrs crate's quantile"],
     "C15": [
         "the reference automaton in harness/src/mbref.rs is the specification (written from the property text and rustdoc)",
         "function arities 1..3 and the name pool {a,b,c,d,'a,b'} are representative of arities 1..10 (the builder logic is arity-generic; the per-arity dispatch is C16's subject)",
